@@ -49,7 +49,7 @@ struct Annot : Profile {
     std::vector<std::string> required_probes() const override
     {
         return {"rewrite-longer", "rewrite-shorter", "desc-with-nul", "many-per-object", "select-all", "annlist", "dfan-put", "dfan-get",
-                "restart", "create-first-in-session", "dfan-missing-file"};
+                "restart", "create-first-in-session", "dfan-missing-file", "dfan-burst", "dfan-burst>32"};
     }
 
     Plan generate(Rng &rng, bool thorough, uint64_t) override
@@ -62,8 +62,8 @@ struct Annot : Profile {
         int nops = (int)r.range(15, thorough ? 110 : 70);
         auto tlen = [&]() { return r.chance(0.15) ? r.range(100, 300) : r.range(1, 40); };
         static const std::vector<int> w     = {/*create*/ 22, /*rewrite*/ 12, /*read*/ 14, /*list*/ 8, /*fileinfo*/ 5, /*select*/ 6,
-                                               /*endaccess*/ 5, /*dfanput*/ 6, /*dfanget*/ 5, /*restart*/ 4};
-        static const char            *names[] = {"create", "rewrite", "read", "list", "fileinfo", "select", "endaccess", "dfanput", "dfanget", "restart"};
+                                               /*endaccess*/ 5, /*dfanput*/ 6, /*dfanget*/ 5, /*restart*/ 4, /*dfanburst*/ 1};
+        static const char            *names[] = {"create", "rewrite", "read", "list", "fileinfo", "select", "endaccess", "dfanput", "dfanget", "restart", "dfanburst"};
         for (int i = 0; i < nops; i++) {
             int k = r.weighted(w);
             switch (k) {
@@ -93,6 +93,9 @@ struct Annot : Profile {
                     break;
                 case 8:
                     p.ops.push_back(mkop(0, names[k], {(int64_t)r.below(2), (int64_t)r.below(2), (int64_t)r.below(3)}));
+                    break;
+                case 10: // file, label/description, how many objects (the single-file interface keeps its directory in blocks of 16), seed
+                    p.ops.push_back(mkop(0, names[k], {(int64_t)r.below(2), (int64_t)r.below(2), r.range(14, 52), (int64_t)(r.next() >> 16)}));
                     break;
             }
         }
@@ -381,6 +384,65 @@ struct Annot : Profile {
             else if (k == "select") {
                 verify_type(s, modn(o.arg(0), 4), "in session");
                 s.session_has_call = true;
+            }
+            else if (k == "dfanburst") {
+                // many objects annotated through the single-file interface in one go, each read back, one rewritten: the
+                // interface keeps a directory of what it has seen, which has to grow with them
+                int    f = modn(o.arg(0), 2), kind = modn(o.arg(1), 2), cnt = (int)std::max<int64_t>(1, std::min<int64_t>(60, o.arg(2)));
+                int    type = kind == 0 ? 2 : 3;
+                uint16 ttag = 8711;
+                close_an(s);
+                std::vector<Ann> &B = s.a[f];
+                auto put = [&](int i, uint64_t seed) {
+                    std::string txt = mktext(seed, 3 + (int64_t)(seed % 17), false);
+                    intn r = kind == 0 ? DFANputlabel(path(f).c_str(), ttag, (uint16)(1 + i), (char *)txt.c_str())
+                                       : DFANputdesc(path(f).c_str(), ttag, (uint16)(1 + i), (char *)txt.c_str(), (int32)txt.size());
+                    if (r == FAIL)
+                        ctx.fail("write-refused", strf("write-refused:dfan-burst%d", kind), strf("DFAN put number %d of a burst on %s failed: %s", i, path(f).c_str(), herr().c_str()));
+                    s.on_disk[f] = true;
+                    Ann *old = nullptr;
+                    for (auto &x : B)
+                        if (x.type == type && x.ttag == ttag && x.tref == (uint16)(1 + i))
+                            old = &x;
+                    if (old)
+                        old->text = txt;
+                    else {
+                        Ann x;
+                        x.type = type;
+                        x.ttag = ttag;
+                        x.tref = (uint16)(1 + i);
+                        x.text = txt;
+                        B.push_back(x);
+                    }
+                };
+                auto check = [&](const char *when) {
+                    for (int i = 0; i < cnt; i++) {
+                        const Ann *x = nullptr;
+                        for (auto &y : B)
+                            if (y.type == type && y.ttag == ttag && y.tref == (uint16)(1 + i))
+                                x = &y;
+                        char buf[64];
+                        memset(buf, 0, sizeof buf);
+                        int32 len = kind == 0 ? DFANgetlablen(path(f).c_str(), ttag, (uint16)(1 + i)) : DFANgetdesclen(path(f).c_str(), ttag, (uint16)(1 + i));
+                        intn  r   = len == FAIL ? FAIL
+                                                : kind == 0 ? DFANgetlabel(path(f).c_str(), ttag, (uint16)(1 + i), buf, (int32)sizeof buf - 1)
+                                                            : DFANgetdesc(path(f).c_str(), ttag, (uint16)(1 + i), buf, (int32)sizeof buf - 1);
+                        ctx.st.checks++;
+                        if (!x || r == FAIL || len != (int32)x->text.size() || memcmp(buf, x->text.data(), x->text.size()) != 0)
+                            ctx.fail("text-mismatch", strf("text-mismatch:dfan-burst%d", kind),
+                                     strf("%s: the %s of object %u/%d (number %d of %d written in one go) reads back with length %d, written %zu", when, kind ? "description" : "label", ttag,
+                                          1 + i, i, cnt, (int)len, x ? x->text.size() : (size_t)0));
+                    }
+                };
+                for (int i = 0; i < cnt; i++)
+                    put(i, (uint64_t)o.arg(3) + (uint64_t)i * 7919u);
+                check("after the burst");
+                put(cnt / 2, (uint64_t)o.arg(3) + 99991u); // one of them again: replaced, not added
+                put(cnt - 1, (uint64_t)o.arg(3) + 99989u);
+                check("after rewriting two of them");
+                ctx.probe("dfan-burst");
+                if (cnt > 32)
+                    ctx.probe("dfan-burst>32");
             }
             else if (k == "dfanput" || k == "dfanget") {
                 int    f = modn(o.arg(0), 2), kind = modn(o.arg(1), k == "dfanput" ? 4 : 2);
